@@ -670,6 +670,10 @@ def seq_method(I, o, name, args, kwargs):
             p["len"] = n - 1
             I.wrote(o.oid, "items")
             return v
+        if name == "clear" and not args:
+            p["len"] = z3.IntVal(0)                   # in place: every alias of the list sees it emptied
+            I.wrote(o.oid, "items")
+            return None
         raise Unsupported("sequence method %s on a symbolic sequence" % name)
     if "items" in p:
         if name == "append":
